@@ -9,7 +9,11 @@ cd /verif
 git -C /repo worktree remove --force $SCR >/dev/null 2>&1
 rm -rf $SCR
 git -C /repo worktree add --detach $SCR HEAD >/dev/null 2>&1 || { echo "worktree failed"; exit 2; }
-if ! git -C $SCR apply "$PATCH"; then echo "PATCH DOES NOT APPLY"; git -C /repo worktree remove --force $SCR; exit 2; fi
+case "$PATCH" in
+  *.sh) if ! (cd $SCR && bash "$PATCH"); then echo "MUTATOR FAILED"; git -C /repo worktree remove --force $SCR; exit 2; fi
+        if git -C $SCR diff --quiet; then echo "MUTATOR CHANGED NOTHING"; git -C /repo worktree remove --force $SCR; exit 2; fi ;;
+  *)    if ! git -C $SCR apply "$PATCH"; then echo "PATCH DOES NOT APPLY"; git -C /repo worktree remove --force $SCR; exit 2; fi ;;
+esac
 for P in "$@"; do
   OUT=$(VERIF_REPO=$SCR ./check $P ${TIER:-quick} 2>&1); RC=$?
   NV=$(echo "$OUT" | grep -c '^VIOLATION')
